@@ -208,6 +208,12 @@ def run_kani_cfg(cfg, obls, results, key):
         if r['status'] == 'pass' and bad_cov:
             r['status'] = 'undecided'
             r['reason'] = 'vacuity guard: cover not satisfiable: %s' % bad_cov[:3]
+        # a harness that only the thorough tier runs (largest table sizes) and that gets no answer within its
+        # time budget was simply not explored: reported, recorded, but not a reason to fail the run
+        thorough_only = ((o.get('cfg_tier') or {}).get(cfg, o.get('tier')) == 'thorough')
+        if r['status'] == 'undecided' and thorough_only and (r.get('reason') or '').startswith('no result (timeout'):
+            r['soft'] = True
+            r['reason'] = 'not explored: no answer within the %d s budget (thorough-only harness, bound %s)' % (timeout, o.get('bound'))
         r.update(engine='kani', cfg=cfg, name=o['name'], label=o['label'], desc=o['desc'], bound=o['bound'], fns=o['fns'],
                  cached=False, supplementary_for=o.get('supplementary_for', []))
         results[oid] = r
